@@ -94,7 +94,7 @@ def hof_digest(hof):
     return [[repr(float(s)), wires(c)] for s, c in hof]
 
 
-def make_solver(cfg):
+def make_solver(cfg, shared=None):
     n, edges = TARGETS[cfg["target"]]
     g = nx.Graph()
     g.add_nodes_from(range(n))
@@ -110,10 +110,52 @@ def make_solver(cfg):
     st = EvolutionarySolverSetting(n_hof=cfg["n_hof"], n_stop=cfg["n_stop"], n_pop=cfg["n_pop"],
                                    tournament_k=cfg.get("k", 2), selection_active=bool(cfg["sel"]),
                                    use_adapt_probability=bool(cfg["adapt"]))
+    if shared is not None:  # H1: the SAME target / metric / compiler objects serve a second solver
+        target, metric, compiler = shared.target, shared.metric, shared.compiler
     if cfg["solver"] == "evo":
-        return EvolutionarySolver(target=target, metric=metric, compiler=compiler, n_emitter=cfg["ne"], n_photon=n,
+        start = build_start(cfg["start"], cfg["ne"], n) if cfg.get("start") is not None else None
+        return EvolutionarySolver(target=target, metric=metric, compiler=compiler, circuit=start, n_emitter=cfg["ne"], n_photon=n,
                                   solver_setting=st)
     return HybridEvolutionarySolver(target=target, metric=metric, compiler=compiler, solver_setting=st)
+
+
+def build_start(spec, ne, n):
+    """a user-supplied start circuit from a JSON op list:
+       ["E", e, p]   emission CNOT e -> p (label Fixed)          ["P", p, [gate names]]  photon wrapper (label Fixed)
+       ["M", e, p]   MeasurementCNOTandReset e -> p (Fixed)      ["W", e, [gate names]]  emitter wrapper (removable)
+       ["C", e, e2]  emitter-emitter CNOT (removable)"""
+    c = CircuitDAG(n_emitter=ne, n_photon=n, n_classical=1)
+    for o in spec:
+        k = o[0]
+        if k == "E":
+            op = gops.CNOT(control=o[1], control_type="e", target=o[2], target_type="p")
+            op.add_labels("Fixed")
+        elif k == "P":
+            op = gops.OneQubitGateWrapper([getattr(gops, g) for g in o[2]], register=o[1], reg_type="p")
+            op.add_labels("Fixed")
+        elif k == "M":
+            op = gops.MeasurementCNOTandReset(control=o[1], control_type="e", target=o[2], target_type="p")
+            op.add_labels("Fixed")
+        elif k == "W":
+            op = gops.OneQubitGateWrapper([getattr(gops, g) for g in o[2]], register=o[1], reg_type="e")
+        elif k == "C":
+            op = gops.CNOT(control=o[1], control_type="e", target=o[2], target_type="e")
+        else:
+            raise ValueError(k)
+        c.add(op)
+    return c
+
+
+def circuit_snapshot(c):
+    return [wires(c), c.to_openqasm(), sorted(map(str, c.dag.nodes)), sorted(map(str, c.dag.edges(keys=True))),
+            [c.n_emitters, c.n_photons, c.n_classical]]
+
+
+def target_snapshot(t):
+    d = t.rep_data.data
+    if hasattr(d, "table"):
+        return [t.rep_type, type(d).__name__, np.array(d.table).tolist(), np.array(d.phase).tolist()]
+    return [t.rep_type, type(d).__name__, np.array(d).tobytes().hex()]
 
 
 def run_solver(cfg):
@@ -355,9 +397,37 @@ def invariants_seeded_case(cfg):
 def invariants_case(cfg):
     solver = make_solver(cfg)
     snaps = []  # per generation: [(score, circuit object, private copy)]
+    pop_symptom = []
     real = solver.update_hof
+    popcheck = bool(cfg.get("popcheck"))
+    start = solver.circuit
+    start_snap = None if start is None else circuit_snapshot(start)
+    target_snap = target_snapshot(solver.target) if popcheck else None
 
     def monitored(population):
+        if popcheck and not pop_symptom:
+            # the population handed to update_hof: (score, circuit) pairs whose score belongs to the circuit, circuits that
+            # can be mutated independently of each other and of the caller's start circuit
+            g = len(snaps)
+            if len(population) != cfg["n_pop"]:
+                pop_symptom.append(f"generation {g}: population has {len(population)} members, expected {cfg['n_pop']}")
+            for a in range(len(population)):
+                ca = population[a][1]
+                if start is not None and (ca is start or ca.dag is start.dag):
+                    pop_symptom.append(f"generation {g}: population member {a} is the caller's start circuit itself (no copy)")
+                    break
+                for b in range(a):
+                    if ca is population[b][1] or ca.dag is population[b][1].dag:
+                        pop_symptom.append(f"generation {g}: population members {b} and {a} are the same circuit object: an in-place "
+                                           f"mutation of one changes the other while its score stays")
+                        break
+            if not pop_symptom:
+                for a, (sc, ca) in enumerate(population):
+                    re = evaluate_like_solve(solver, ca.copy())
+                    if abs(re - float(sc)) > 1e-12:
+                        pop_symptom.append(f"generation {g}: population member {a} carries score {float(sc)!r} but its circuit "
+                                           f"evaluates to {re!r}")
+                        break
         real(population)
         snaps.append([(float(s), c, None if c is None else c.copy()) for s, c in solver.hof])
 
@@ -366,6 +436,15 @@ def invariants_case(cfg):
     solver.solve()
     if len(snaps) != cfg["n_stop"]:
         return f"update_hof ran {len(snaps)} times for {cfg['n_stop']} generations"
+    if start is not None:
+        if solver.circuit is not start:
+            return "solver.circuit no longer is the caller's start circuit"
+        if circuit_snapshot(start) != start_snap:
+            return "solve() modified the caller's start circuit"
+        if any(c is start or (c is not None and c.dag is start.dag) for _, c in solver.hof):
+            return "the hall of fame holds the caller's start circuit itself (no copy)"
+    if popcheck and target_snapshot(solver.target) != target_snap:
+        return "solve() modified the caller's target state"
     prev_best = float("inf")
     order = cfg.get("order", True)
     for g, snap in enumerate(snaps):
@@ -397,6 +476,8 @@ def invariants_case(cfg):
                 return f"final entry {i} stores score {float(s)!r} but its circuit evaluates to {re!r}"
     if solver.result is None or not any(solver.result[1] is c and float(solver.result[0]) == float(s) for s, c in solver.hof):
         return "result is not an entry (score, circuit) of the hall of fame"
+    if pop_symptom:
+        return pop_symptom[0]
     if not order:
         return None
     best = min(float(s) for s, _ in solver.hof)
@@ -407,6 +488,155 @@ def invariants_case(cfg):
     if lmin != want:
         return f"logged best scores {lmin} differ from the hall of fame's {want}"
     return None
+
+
+# ---- H6 / H2 / H1: solver built with a user-supplied start circuit (EvolutionarySolver(circuit=...)), n_pop > 1
+def _starts(n, ne):
+    """fixed start circuits for n photons / ne emitters (JSON op lists, see build_start)"""
+    em = [i % ne for i in range(n)]
+    bare = []
+    for p_ in range(n):
+        bare += [["E", em[p_], p_], ["P", p_, ["Identity", "Hadamard"]]]
+    bare += [["M", e, (e + 1) % n] for e in range(ne)]
+    dressed = [["W", e, ["Hadamard"]] for e in range(ne)]
+    if ne == 2:
+        dressed.append(["C", 0, 1])
+    for p_ in range(n):
+        dressed += [["E", em[p_], p_], ["P", p_, ["Hadamard"] if p_ % 2 else ["Identity"]], ["W", em[p_], ["Hadamard"]]]
+        if p_ == 1:
+            dressed.append(["W", em[p_], ["Phase", "Hadamard"]])
+    dressed += [["M", e, n - 1 - e] for e in range(ne)]
+    return {"bare": bare, "dressed": dressed}
+
+
+@S.item("population_initialization.start_circuit",
+        site="graphiq.solvers.evolutionary_solver:EvolutionarySolver.population_initialization", exhaustive=True,
+        bound="EvolutionarySolver(circuit=start) for 12 fixed start circuits (targets path2/path3/star4/cycle4, 1-2 emitters, bare / "
+              "dressed with removable emitter gates) x n_pop in 1..6; called twice on the same solver",
+        clause="population members are mutated in place: the initial population must be n_pop independent copies of the caller's "
+               "circuit (mutating one changes neither another member nor the caller's circuit), on every call")
+def popinit_case(cfg):
+    solver = make_solver(cfg)
+    start = solver.circuit
+    snap = circuit_snapshot(start)
+    for call in (1, 2):
+        pop = solver.population_initialization()
+        if len(pop) != cfg["n_pop"]:
+            return f"call {call}: {len(pop)} members, expected {cfg['n_pop']}"
+        for a, (sc, c) in enumerate(pop):
+            if c is start or c.dag is start.dag:
+                return f"call {call}: member {a} is the caller's circuit itself"
+            if circuit_snapshot(c)[:2] != snap[:2]:
+                return f"call {call}: member {a} differs from the caller's circuit"
+            if any(c is d or c.dag is d.dag for _, d in pop[:a]):
+                return f"call {call}: member {a} is the same circuit object as an earlier member (n_pop={cfg['n_pop']})"
+        # semantic independence: mutate each member in turn with the solver's own transformations
+        solver.seed(cfg["seed"] + call)
+        for a, (sc, c) in enumerate(pop):
+            before = [circuit_snapshot(d) for _, d in pop]
+            for _ in range(3):
+                solver.add_emitter_one_qubit_op(c)
+                solver.replace_photon_one_qubit_op(c)
+            for b, (_, d) in enumerate(pop):
+                if b != a and circuit_snapshot(d) != before[b]:
+                    return f"call {call}: mutating member {a} changed member {b}"
+            if circuit_snapshot(start) != snap:
+                return f"call {call}: mutating member {a} changed the caller's circuit"
+    return None
+
+
+@S.item("solve.start_circuit_invariants", site=_SOLVE_SITE,
+        bound="fixed sample, seed-independent (ordering clauses as in solve.generation_invariants; can in principle meet known finding "
+              "C19-G1): EvolutionarySolver(circuit=start) for the 12 fixed start circuits x (n_pop,n_stop,n_hof) in "
+              "{(2,4,1),(3,4,2),(6,3,3)} x selection on/off x solver seeds 0,1,7 (adaptive probabilities on for odd seeds); stabilizer "
+              "compiler, measurement_determinism=1",
+        clause="after every generation: every population member's score belongs to its circuit and members are distinct objects; "
+               "hof ordered, stored score = metric re-evaluated on the stored circuit, best never worse; result = best entry; the "
+               "caller's start circuit and target are unchanged")
+def start_invariants_case(cfg):
+    return invariants_case(cfg)
+
+
+@S.item("solve.start_circuit_honest_seeded", site=_SOLVE_SITE,
+        bound="the same start circuits and settings with VERIF_SEED-dependent solver seeds; ordering clauses not demanded "
+              "(\"order\": false, so known finding C19-G1 cannot show)",
+        clause="stored score = metric re-evaluated on the stored circuit; population honest; caller's circuit unchanged (seeded)")
+def start_invariants_seeded_case(cfg):
+    return invariants_case(cfg)
+
+
+def start_configs(seeds, settings=((2, 4, 1), (3, 4, 2), (6, 3, 3))):
+    out = []
+    for tname, ne in (("path2", 1), ("path3", 1), ("path3", 2), ("star4", 1), ("cycle4", 1), ("cycle4", 2)):
+        n = TARGETS[tname][0]
+        for sname, spec in _starts(n, ne).items():
+            for (n_pop, n_stop, n_hof) in settings:
+                for sel in (False, True):
+                    for seed in seeds:
+                        out.append({"solver": "evo", "target": tname, "compiler": "s", "seed": seed, "n_pop": n_pop, "n_stop": n_stop,
+                                    "n_hof": n_hof, "sel": sel, "adapt": bool(seed % 2), "k": 2 + (seed % 2), "ne": ne,
+                                    "start": spec, "popcheck": True})
+    return out
+
+
+def popinit_configs():
+    out = []
+    for tname, ne in (("path2", 1), ("path3", 1), ("path3", 2), ("star4", 1), ("cycle4", 1), ("cycle4", 2)):
+        for sname, spec in _starts(TARGETS[tname][0], ne).items():
+            for n_pop in range(1, 7):
+                out.append({"solver": "evo", "target": tname, "compiler": "s", "seed": n_pop, "n_pop": n_pop, "n_stop": 1, "n_hof": 1,
+                            "sel": False, "adapt": False, "k": 2, "ne": ne, "start": spec})
+    return out
+
+
+# ---- H6 / H1: particular seed values (0 must seed like any other value), fresh solvers, shared metric / compiler objects
+@S.item("solve.reproducible_seed_values", site="graphiq.solvers.solver_base:SolverBase.seed",
+        bound="fixed sample: solver seeds 0, 1, 7 x {evolutionary 1-2 emitters, evolutionary with a start circuit, hybrid} x targets "
+              "path3/star4/cycle4 x (n_pop,n_stop,n_hof) in {(4,3,2),(6,4,3)} x selection/adaptive off/on: three runs in one process - "
+              "fresh solver; (unseeded draws from numpy.random / random in between) fresh solver; third solver sharing the first one's "
+              "target, metric and compiler objects",
+        clause="fixed seed (0 included) => same hall of fame (scores, circuits), same result, in every fresh run")
+def repro_seed_values_case(cfg):
+    def digest(s):
+        s.seed(cfg["seed"])
+        s.solve()
+        return {"hof": hof_digest(s.hof), "result": [repr(float(s.result[0])), wires(s.result[1])]}
+
+    s1 = make_solver(cfg)
+    a = digest(s1)
+    # whatever the global generators did before must not matter
+    np.random.random(int(3 + cfg["seed"]))
+    random.random()
+    b = digest(make_solver(cfg))
+    d = _first_diff(a, b, "run")
+    if d:
+        return f"two fresh runs with seed {cfg['seed']} differ at {d}"
+    c = digest(make_solver(cfg, shared=s1))
+    d = _first_diff(a, c, "run")
+    if d:
+        return f"a run with seed {cfg['seed']} that shares target / metric / compiler objects with an earlier run differs at {d}"
+    return None
+
+
+def seed_value_configs():
+    out = []
+    for tname in ("path3", "star4", "cycle4"):
+        n = TARGETS[tname][0]
+        variants = [("evo", 1, None), ("evo", 1, _starts(n, 1)["dressed"]), ("hybrid", None, None)]
+        if tname != "star4":
+            variants += [("evo", 2, None), ("evo", 2, _starts(n, 2)["bare"])]
+        for solver, ne, start in variants:
+            for (n_pop, n_stop, n_hof) in ((4, 3, 2), (6, 4, 3)):
+                for onoff in (False, True):
+                    for seed in (0, 1, 7):
+                        cfg = {"solver": solver, "target": tname, "compiler": "s", "seed": seed, "n_pop": n_pop, "n_stop": n_stop,
+                               "n_hof": n_hof, "sel": onoff, "adapt": onoff, "k": 2}
+                        if solver == "evo":
+                            cfg["ne"] = ne
+                            if start is not None:
+                                cfg["start"] = start
+                        out.append(cfg)
+    return out
 
 
 @S.item("solve.reproducible_same_process", site="graphiq.solvers.solver_base:SolverBase.seed",
@@ -549,7 +779,12 @@ def run(tier, seed):
     hs = hashseed_fixed_configs(thorough)
     _prefetch("solve.reproducible_across_hashseeds", hs)
     S.map("solve.reproducible_across_hashseeds", hs, procs=1)
+    S.map("population_initialization.start_circuit", popinit_configs())
+    S.map("solve.start_circuit_invariants", start_configs([0, 1, 7]), chunksize=4)
+    S.map("solve.reproducible_seed_values", seed_value_configs(), chunksize=2)
     # seeded exploration on domains the known findings cannot reach
+    S.map("solve.start_circuit_honest_seeded",
+          [dict(c, order=False) for c in start_configs([base + s for s in range(3 if thorough else 1)])], chunksize=4)
     hon = [dict(c, order=False) for c in configs([base + s for s in range(4 if thorough else 1)], with_dm=True)]
     S.map("solve.honest_scores_seeded", hon, chunksize=4)
     rep = configs([base + s for s in range(6 if thorough else 1)], with_dm=True)
